@@ -86,7 +86,62 @@ type parsNorm struct {
 	depthC int
 	inl    int
 	err    error
+	ren    *canonOpts            // result variable of an inlined helper -> the caller's variable it is assigned to
 	dead   map[types.Object]bool // integer locals that feed nothing (only counted, or handed to an unused parameter)
+}
+
+// cn: canonical text, with the result variables of inlined helpers named after the caller's variable.
+func (pn *parsNorm) cn(e ast.Expr) string {
+	if pn.ren != nil && len(pn.ren.subst) > 0 {
+		return pn.c.canon(pn.info, e, pn.ren)
+	}
+	return pn.c.canon(pn.info, e, nil)
+}
+
+// inlinableResult: call is a call of a small helper that pn.call would inline and whose returns all
+// hand back one and the same variable (a named result, or a local): that variable, and whether it is
+// a named result (implicitly zero at entry).
+func (pn *parsNorm) inlinableResult(call *ast.CallExpr) (res types.Object, named bool) {
+	fn := calleeOf(pn.info, call)
+	if fn == nil {
+		return nil, false
+	}
+	g := pn.c.FuncOfObj(fn)
+	if g == nil || g.Pkg != pn.fi.Pkg || g.Decl.Body == nil || fn == pn.fi.Obj || fn.Name() == "computeParsimony" || fn.Name() == "randomlyResolveNodeStates" || strings.HasPrefix(fn.Name(), "parsimony") {
+		return nil, false
+	}
+	sig := fn.Type().(*types.Signature)
+	if sig.Results().Len() != 1 {
+		return nil, false
+	}
+	ginfo := g.Pkg.TypesInfo
+	var namedRes types.Object
+	if rl := g.Decl.Type.Results.List; len(rl) == 1 && len(rl[0].Names) == 1 {
+		namedRes = ginfo.Defs[rl[0].Names[0]]
+	}
+	okAll := true
+	ast.Inspect(g.Decl.Body, func(n ast.Node) bool {
+		if _, isLit := n.(*ast.FuncLit); isLit {
+			return false
+		}
+		if r, ok := n.(*ast.ReturnStmt); ok {
+			var o types.Object
+			if len(r.Results) == 0 {
+				o = namedRes
+			} else if len(r.Results) == 1 {
+				o = identObj(ginfo, r.Results[0])
+			}
+			if o == nil || (res != nil && res != o) {
+				okAll = false
+			}
+			res = o
+		}
+		return true
+	})
+	if !okAll || res == nil {
+		return nil, false
+	}
+	return res, res == namedRes
 }
 
 func isStateVecType(t types.Type) bool {
@@ -231,7 +286,7 @@ func (pn *parsNorm) condKey(e ast.Expr) string {
 			if id, ok := unparen(e).(*ast.Ident); ok {
 				return id.Name
 			}
-			return pn.c.canon(info, e, nil)
+			return pn.cn(e)
 		}
 		l, r := side(x.X), side(x.Y)
 		op := x.Op
@@ -255,7 +310,7 @@ func (pn *parsNorm) condKey(e ast.Expr) string {
 		}
 		return l + op.String() + r
 	}
-	return pn.c.canon(info, e, nil)
+	return pn.cn(e)
 }
 
 func isFloatConstInt(info *types.Info, e ast.Expr, out *int64) bool {
@@ -410,7 +465,7 @@ func (pn *parsNorm) stmt(s ast.Stmt) string {
 		if k := pn.cntKey(x.X); k != "" {
 			return k + x.Tok.String()
 		}
-		name := pn.c.canon(info, x.X, nil)
+		name := pn.cn(x.X)
 		if strings.HasPrefix(name, "nsteps") {
 			name = "nsteps"
 		}
@@ -440,13 +495,13 @@ func (pn *parsNorm) stmt(s ast.Stmt) string {
 					if tv, ok := info.Types[r]; ok && tv.Value != nil {
 						rv = constKey(tv.Value)
 					} else {
-						rv = pn.c.canon(info, r, nil)
+						rv = pn.cn(r)
 					}
 				}
 				return k + x.Tok.String() + rv
 			}
 			// scalars
-			lk := pn.c.canon(info, l, nil)
+			lk := pn.cn(l)
 			if strings.HasPrefix(lk, "nsteps") {
 				// acr accumulates the steps returned by the recursion; asr shares a slice
 				return ""
@@ -456,9 +511,21 @@ func (pn *parsNorm) stmt(s ast.Stmt) string {
 				if tv, ok := info.Types[r]; ok && tv.Value != nil {
 					rk = constKey(tv.Value)
 				} else if call, ok := unparen(r).(*ast.CallExpr); ok {
+					// `x := helper(..)` with the helper inlined: its result variable is x
+					if res, named := pn.inlinableResult(call); res != nil {
+						if pn.ren == nil {
+							pn.ren = &canonOpts{subst: map[types.Object]string{}}
+						}
+						pn.ren.subst[res] = lk
+						body := pn.call(call)
+						if named {
+							return lk + ":=0 ; " + body
+						}
+						return body
+					}
 					return pn.call(call)
 				} else {
-					rk = pn.c.canon(info, r, nil)
+					rk = pn.cn(r)
 				}
 			}
 			return lk + x.Tok.String() + rk
@@ -532,7 +599,7 @@ func (pn *parsNorm) call(call *ast.CallExpr) string {
 	case "randomlyResolveNodeStates":
 		return "randomResolve(" + pn.node[identObj(info, call.Args[0])] + ")"
 	case "Intn":
-		return "Intn(" + pn.c.canon(info, call.Args[0], nil) + ")"
+		return "Intn(" + pn.cn(call.Args[0]) + ")"
 	}
 	return ""
 }
